@@ -1,0 +1,94 @@
+//go:build verif
+
+/*
+ * Licensed to the Apache Software Foundation (ASF) under one or more
+ * contributor license agreements.  See the NOTICE file distributed with
+ * this work for additional information regarding copyright ownership.
+ * The ASF licenses this file to You under the Apache License, Version 2.0
+ * (the "License"); you may not use this file except in compliance with
+ * the License.  You may obtain a copy of the License at
+ *
+ *     http://www.apache.org/licenses/LICENSE-2.0
+ *
+ * Unless required by applicable law or agreed to in writing, software
+ * distributed under the License is distributed on an "AS IS" BASIS,
+ * WITHOUT WARRANTIES OR CONDITIONS OF ANY KIND, either express or implied.
+ * See the License for the specific language governing permissions and
+ * limitations under the License.
+ */
+
+package fence
+
+// Verification contracts (comment-only, tag verif) for property C05: a TCC prepare registers its
+// Verification contracts (comment-only, tag verif) for property C06: WithFence / DoFence and the
+// fence driver. The business callback is the environment (ghost.biz_applied counts its runs).
+
+//@ ghost var biz_applied int
+//@ ext callback:callback
+//@   modifies ghost.biz_applied
+//@   ensures ghost.biz_applied == old(ghost.biz_applied) + 1
+//@ ext seata.apache.org/seata-go/pkg/rm/tcc/fence/handler.GetFenceHandler
+//@   ensures result != nil && result.tccFenceDao != nil
+
+//@ func DoFence
+//@   prop C06
+//@   requires ctx != nil
+//@   let cv := ctxvalue(ctx, tm.seataContextVariable)
+//@   requires cv != nil && isT(cv, *tm.ContextVariable) && cv.(*tm.ContextVariable) != nil && cv.(*tm.ContextVariable).BusinessActionContext != nil
+//@   requires ghost.fence_status >= 0 && ghost.fence_status <= 4
+//@   let phase := cv.(*tm.ContextVariable).FencePhase
+//@   modifies ghost.fence_status
+//@   ensures dispatch-by-phase: (phase == enum.FencePhasePrepare ==> called("PrepareFence#1") && !called("CommitFence#1") && !called("RollbackFence#1")) && (phase == enum.FencePhaseCommit ==> called("CommitFence#1") && !called("PrepareFence#1") && !called("RollbackFence#1")) && (phase == enum.FencePhaseRollback ==> called("RollbackFence#1") && !called("PrepareFence#1") && !called("CommitFence#1"))
+//@   ensures unknown-phase-is-refused: phase != enum.FencePhasePrepare && phase != enum.FencePhaseCommit && phase != enum.FencePhaseRollback ==> result != nil && ghost.fence_status == old(ghost.fence_status)
+//@   ensures prepare: phase == enum.FencePhasePrepare ==> (result == nil ==> old(ghost.fence_status) == 0 && ghost.fence_status == 1) && (result != nil ==> ghost.fence_status == old(ghost.fence_status))
+//@   ensures commit: phase == enum.FencePhaseCommit ==> (result == nil ==> ghost.fence_status == 2) && (ghost.fence_status != old(ghost.fence_status) ==> old(ghost.fence_status) == 1 && result == nil)
+//@   ensures rollback: phase == enum.FencePhaseRollback ==> (result == nil ==> ghost.fence_status == 3 || ghost.fence_status == 4) && (ghost.fence_status != old(ghost.fence_status) ==> result == nil && ((old(ghost.fence_status) == 1 && ghost.fence_status == 3) || (old(ghost.fence_status) == 0 && ghost.fence_status == 4)))
+
+//@ func WithFence
+//@   prop C06
+//@   requires ctx != nil
+//@   let cv := ctxvalue(ctx, tm.seataContextVariable)
+//@   requires cv != nil && isT(cv, *tm.ContextVariable) && cv.(*tm.ContextVariable) != nil && cv.(*tm.ContextVariable).BusinessActionContext != nil
+//@   requires ghost.fence_status >= 0 && ghost.fence_status <= 4 && ghost.biz_applied == 0
+//@   let phase := cv.(*tm.ContextVariable).FencePhase
+//@   modifies ghost.fence_status, ghost.biz_applied
+//@   ensures refused-runs-no-business: called("DoFence#1") && callres("DoFence#1", 0) != nil ==> ghost.biz_applied == 0 && result != nil && ghost.fence_status == old(ghost.fence_status)
+//@   ensures business-at-most-once: ghost.biz_applied <= 1
+//@   ensures business-error-surfaces: called("callback:callback#1") && callres("callback:callback#1", 0) != nil ==> result != nil
+//@   ensures effect-needs-its-transition: ghost.biz_applied == 1 ==> (phase == enum.FencePhasePrepare && old(ghost.fence_status) == 0 && ghost.fence_status == 1) || (phase == enum.FencePhaseCommit && old(ghost.fence_status) == 1 && ghost.fence_status == 2) || (phase == enum.FencePhaseRollback && old(ghost.fence_status) == 1 && ghost.fence_status == 3)
+
+// The fence driver: the business transaction (driver.Tx of the target connection, ghost.dtx) and the
+// fence transaction (a *sql.Tx on another pooled connection, ghost.utx) are two database
+// transactions. ghost values: 0 none, 1 open, 2 committed, 3 ended without commit.
+//@ func (*FenceTx).Commit
+//@   prop C06
+//@   requires tx != nil && tx.TargetTx != nil && tx.TargetFenceTx != nil && tx.Ctx != nil && ghost.dtx == 1 && ghost.utx == 1
+//@   let cv := ctxvalue(tx.Ctx, tm.seataContextVariable)
+//@   requires cv != nil ==> isT(cv, *tm.ContextVariable) && cv.(*tm.ContextVariable) != nil
+//@   modifies ghost.dtx, ghost.utx, ghost.step_failed, cv.(*tm.ContextVariable).FenceTxBegined
+//@   ensures success-commits-both: result == nil ==> ghost.dtx == 2 && ghost.utx == 2
+//@   ensures no-fence-record-without-business: ghost.utx == 2 ==> ghost.dtx == 2
+//@   ensures no-business-without-fence-record: ghost.dtx == 2 ==> ghost.utx == 2
+//@   ensures failure-surfaces: ghost.dtx != 2 || ghost.utx != 2 ==> result != nil
+
+//@ func (*FenceTx).Rollback
+//@   prop C06
+//@   requires tx != nil && tx.TargetTx != nil && tx.TargetFenceTx != nil && tx.Ctx != nil && ghost.dtx == 1 && ghost.utx == 1
+//@   let cv := ctxvalue(tx.Ctx, tm.seataContextVariable)
+//@   requires cv != nil ==> isT(cv, *tm.ContextVariable) && cv.(*tm.ContextVariable) != nil
+//@   modifies ghost.dtx, ghost.utx, ghost.step_failed, cv.(*tm.ContextVariable).FenceTxBegined
+//@   ensures nothing-committed: ghost.dtx != 2 && ghost.utx != 2
+//@   ensures success-ends-both: result == nil ==> ghost.dtx == 3 && ghost.utx == 3
+
+//@ func (*FenceConn).BeginTx
+//@   prop C06
+//@   requires c != nil && c.TargetConn != nil && c.TargetDB != nil && ctx != nil && ghost.dtx == 0 && ghost.utx == 0 && ghost.biz_applied == 0
+//@   let cv := ctxvalue(ctx, tm.seataContextVariable)
+//@   requires cv != nil ==> isT(cv, *tm.ContextVariable) && cv.(*tm.ContextVariable) != nil && cv.(*tm.ContextVariable).BusinessActionContext != nil
+//@   requires ghost.fence_status >= 0 && ghost.fence_status <= 4
+//@   modifies heap.all, ghost.all
+//@   ensures no-open-transaction-after-failure: result1 != nil ==> ghost.utx != 1 && (ghost.dtx == 1 ==> called("(driver.Tx).Rollback#1"))
+//@   ensures refused-by-the-fence-is-an-error: called("WithFence#1") && callres("WithFence#1", 0) != nil ==> result1 != nil
+//@   let already := cv != nil && cv.(*tm.ContextVariable).FenceTxBegined
+//@   ensures success-has-both-open: result1 == nil && !already ==> isT(result0, *FenceTx) && ghost.dtx == 1 && ghost.utx == 1
+//@   ensures nested-begin-joins: result1 == nil && already ==> ghost.dtx == 1 && ghost.utx == 0 && !called("WithFence#1")
